@@ -8,7 +8,7 @@ import GT.Base.DMat
 import Mathlib.Algebra.Field.Rat
 import Mathlib.LinearAlgebra.Matrix.NonsingularInverse
 
-namespace GT
+namespace GT.LinAlgQ
 
 /-- Gauss–Jordan elimination on the augmented matrix `[a | 1]`; `none` if singular -/
 def qinv (a : Array (Array ℚ)) : Option (Array (Array ℚ)) := Id.run do
@@ -55,4 +55,4 @@ theorem certInv_spec {p : ℕ} {M B : Matrix (Fin p) (Fin p) ℚ} (h : certInv M
       rwa [DMat.toMatrix_ofMatrix, DMat.toMatrix_ofMatrix] at this
     exact (Matrix.inv_eq_right_inv this).symm
 
-end GT
+end GT.LinAlgQ
